@@ -26,7 +26,7 @@ import (
 )
 
 func init() {
-	register(&Prop{ID: "C14", Module: "V.C14.Check", Gen: c14Gen, Quick: 900, Thorough: 6000, Shard: 120})
+	register(&Prop{ID: "C14", Module: "V.C14.Check", Gen: c14Gen, Quick: 560, Thorough: 12000, Shard: 100})
 }
 
 const c14KFPeekImport = "C14-peek-import-cycle-hang"
@@ -172,12 +172,7 @@ func c14Reports(resp c07Resp) (string, []string, bool) {
 }
 
 func c14ChainCase(s *c14Set, class string) Case {
-	before := c07NoAnswer
-	c := c14ChainCaseInner(s, class)
-	if len(c.KF) > 0 {
-		c07NoAnswer = before // a known hang does not count towards giving up
-	}
-	return c
+	return c14ChainCaseInner(s, class)
 }
 
 func c14ChainCaseInner(s *c14Set, class string) Case {
@@ -210,9 +205,9 @@ func c14ChainCaseInner(s *c14Set, class string) Case {
 	}
 	c.Coq = fmt.Sprintf("Chain %s %s %s %s", coqBytes(s.Root), c14ImpsCoq(c14Imports(s.Files[s.Root], s.Root)), coqList(fsCoq), impl)
 	p := &c07Prog{Root: s.Root, Files: s.Files}
-	for _, k := range c07PeekKF(p) {
-		_ = k
-		c.KF = append(c.KF, c14KFPeekImport)
+	// signature of the repaired peekImport finding (coq/C14/fixed.json): class label only
+	if len(c07PeekKF(p)) > 0 {
+		c.Class += "+sig"
 	}
 	return c
 }
@@ -323,6 +318,14 @@ func (g *c14Gener) decls(fileIdx, depth, n int, top bool) []*c14Decl {
 		if !top {
 			g.feats["spread-in-map"] = true
 		}
+	}
+	// a board-wide glob at the top of a file: it must reach the importer through any number of spread
+	// imports exactly as if it had been written there (seeded change C14: two levels)
+	if top && g.r.Chance(0.3) {
+		at := g.r.Pick([]string{"style.opacity:0.4", "style.stroke:red", "style.font-size:30"})
+		kv := strings.SplitN(at, ":", 2)
+		out = append(out, &c14Decl{Kind: "key", Path: append([]string{"***"}, strings.Split(kv[0], ".")...), Prim: kv[1]})
+		g.feats["triple-glob"] = true
 	}
 	for i := 0; i < n; i++ {
 		switch g.r.Intn(9) {
@@ -549,6 +552,10 @@ func c14InlineCase(r *Rng) ([]Case, bool) {
 	if !ok || !strings.Contains(files["index.d2"], "@") {
 		return nil, false
 	}
+	// `@file.key` takes one key out of a file: what a glob of that file did to it cannot be inlined by hand
+	if g.feats["triple-glob"] && g.feats["import-key"] {
+		return nil, false
+	}
 	var tb strings.Builder
 	c14Print(tw, "index.d2", "", &tb)
 	twin := map[string]string{"index.d2": tb.String()}
@@ -558,6 +565,9 @@ func c14InlineCase(r *Rng) ([]Case, bool) {
 	c.Input = map[string]any{"files": files, "twin": twin["index.d2"], "features": fmt.Sprint(g.feats)}
 	c.Impl = map[string]any{"import_class": a.Class, "twin_class": b.Class, "import_lines": len(a.Proj), "twin_lines": len(b.Proj)}
 	c.Coq = fmt.Sprintf("Inline %s %s", c14Outcome(a), c14Outcome(b))
+	if c14GlobOverrideSignature(files, "index.d2") {
+		c.KF = []string{c14KFGlobOverride}
+	}
 	if overA || overB || a.Class == "panic" || b.Class == "panic" {
 		c.ImplFail = []string{"no result / over the time bound: " + a.Class + " " + b.Class + " " + a.Panic + b.Panic}
 	}
@@ -583,7 +593,7 @@ func c14InCore(ds []*c14Decl) bool {
 		if d.Kind == "importkey" {
 			return false
 		}
-		if d.Kind == "key" && d.Path[len(d.Path)-1] == "icon" {
+		if d.Kind == "key" && (d.Path[len(d.Path)-1] == "icon" || d.Path[0] == "***") {
 			return false
 		}
 		if !c14InCore(d.Body) {
@@ -689,6 +699,19 @@ var c14InlineCorpus = []struct {
 	{map[string]string{"index.d2": "q: @x\nb\n", "x.d2": "a: hi\na -> c\n"}, "q: {\n  a: hi\n  a -> c\n}\nb\n"},
 	{map[string]string{"index.d2": "q: @sub/y\n", "sub/y.d2": "a.icon: ./i.png\nb: @deep/z\n", "sub/deep/z.d2": "k.icon: ../j.png\n"}, "q: {\n  a.icon: sub/i.png\n  b: {\n    k.icon: sub/j.png\n  }\n}\n"},
 	{map[string]string{"index.d2": "q: @x.a\n", "x.d2": "a: hi {\n  m.shape: circle\n}\nb\n"}, "q: hi {\n  m.shape: circle\n}\n"},
+	// ... through two levels of spread imports (three files), with objects and connections of its own in every file
+	{map[string]string{"index.d2": "...@x\nown\nown -> b\n", "x.d2": "...@sub/y\nb\nb -> t\n", "sub/y.d2": "***.style.opacity: 0.4\n(*** -> ***)[*].style.stroke: red\nt\n"},
+		"***.style.opacity: 0.4\n(*** -> ***)[*].style.stroke: red\nt\nb\nb -> t\nown\nown -> b\n"},
+	{map[string]string{"index.d2": "...@x\nown\n", "x.d2": "...@sub/y\nb\n", "sub/y.d2": "...@deep/z\nc\n", "sub/deep/z.d2": "***.shape: circle\nt\n"},
+		"***.shape: circle\nt\nc\nb\nown\n"},
+	{map[string]string{"index.d2": "q: @x\nown\n", "x.d2": "...@sub/y\nb\n", "sub/y.d2": "***.style.opacity: 0.4\nt\n"},
+		"q: {\n  ***.style.opacity: 0.4\n  t\n  b\n}\nown\n"},
+	// open finding: the carried-over glob overrides an explicit value of the imported file ...
+	{map[string]string{"index.d2": "...@x\nq\n", "x.d2": "***.style.stroke: red\ne.style.stroke: blue\n"}, "***.style.stroke: red\ne.style.stroke: blue\nq\n"},
+	// ... near misses: nothing declared after the import; another attribute; the explicit value in the importer
+	{map[string]string{"index.d2": "...@x\n", "x.d2": "***.style.stroke: red\ne.style.stroke: blue\n"}, "***.style.stroke: red\ne.style.stroke: blue\n"},
+	{map[string]string{"index.d2": "...@x\nq\n", "x.d2": "***.style.stroke: red\ne.style.fill: blue\n"}, "***.style.stroke: red\ne.style.fill: blue\nq\n"},
+	{map[string]string{"index.d2": "...@x\ne.style.stroke: blue\nq\n", "x.d2": "***.style.stroke: red\n"}, "***.style.stroke: red\ne.style.stroke: blue\nq\n"},
 	// *** of the imported file reaches the importer when spread ...
 	{map[string]string{"index.d2": "...@x\nb\n", "x.d2": "***.style.opacity: 0.5\na\n"}, "***.style.opacity: 0.5\na\nb\n"},
 	// ... while * and ** of the imported file only see the imported content
@@ -726,7 +749,63 @@ func c14RebaseCase(dir, val string) Case {
 	return c
 }
 
-// ---------------------------------------------------------------- known finding: `link` without a value in an imported file
+// ---------------------------------------------------------------- known finding (open): an imported `***` glob overrides explicit values
+//
+// index.d2 = `...@x` + any further declaration, x.d2 = `***.style.stroke: red; e.style.stroke: blue`: written in
+// place the explicit blue wins; imported, the glob carried over to the importer is applied again when the
+// importer declares its next object and overrides the explicit value of the imported file (red).
+// Signature: a file other than the root declares a triple glob `***.T: v`, and a file other than the root
+// declares a non-glob key whose path ends with T.
+const c14KFGlobOverride = "C14-imported-triple-glob-overrides-explicit"
+
+func c14GlobOverrideSignature(files map[string]string, root string) bool {
+	var tails, explicit [][]string
+	var walk func(m *d2ast.Map, prefix []string)
+	walk = func(m *d2ast.Map, prefix []string) {
+		if m == nil {
+			return
+		}
+		for _, n := range m.Nodes {
+			k := n.MapKey
+			if k == nil || k.Key == nil || len(k.Edges) > 0 {
+				continue
+			}
+			var parts []string
+			for _, sb := range k.Key.Path {
+				parts = append(parts, sb.Unbox().ScalarString())
+			}
+			full := append(append([]string{}, prefix...), parts...)
+			if k.Value.Map != nil {
+				walk(k.Value.Map, full)
+				continue
+			}
+			if parts[0] == "***" {
+				if len(parts) > 1 {
+					tails = append(tails, parts[1:])
+				}
+			} else if !strings.Contains(strings.Join(parts, "."), "*") {
+				explicit = append(explicit, full)
+			}
+		}
+	}
+	for name, src := range files {
+		if name == root {
+			continue
+		}
+		ast, _ := d2parser.Parse(name, strings.NewReader(src), nil)
+		walk(ast, nil)
+	}
+	for _, t := range tails {
+		for _, e := range explicit {
+			if len(e) > len(t) && strings.Join(e[len(e)-len(t):], ".") == strings.Join(t, ".") {
+				return true
+			}
+		}
+	}
+	return false
+}
+
+// ---------------------------------------------------------------- repaired finding: `link` without a value in an imported file
 
 func c14LinkNoValue(files map[string]string) bool {
 	hasImport := false
@@ -790,6 +869,9 @@ func c14Gen(r *Rng, tier string, n int) []Case {
 		c.Input = map[string]any{"files": ic.files, "twin": ic.twin}
 		c.Impl = map[string]any{"import_class": a.Class, "twin_class": b.Class}
 		c.Coq = fmt.Sprintf("Inline %s %s", c14Outcome(a), c14Outcome(b))
+		if c14GlobOverrideSignature(ic.files, "index.d2") {
+			c.KF = []string{c14KFGlobOverride}
+		}
 		out = append(out, c)
 	}
 	for _, dir := range []string{"", "sub/", "sub/deep/", "./", "a/../b/"} {
@@ -797,16 +879,13 @@ func c14Gen(r *Rng, tier string, n int) []Case {
 			out = append(out, c14RebaseCase(dir, val))
 		}
 	}
-	// link without a value inside an imported file (known finding) and its near miss
+	// link without a value inside an imported file (repaired finding) and its near miss
 	for _, fs := range []map[string]string{
 		{"index.d2": "...@x\n", "x.d2": "a.link\n"},
 		{"index.d2": "q: @x\n", "x.d2": "a.link: [q]\n"},
 		{"index.d2": "q: @x\n", "x.d2": "a.link: layers.l\nlayers: {l: {z}}\n"},
 	} {
 		c := c14ChainCase(&c14Set{Root: "index.d2", Files: fs}, "link")
-		if c14LinkNoValue(fs) {
-			c.KF = append(c.KF, c14KFLinkNoValue)
-		}
 		out = append(out, c)
 	}
 	for len(out) < n {
